@@ -78,11 +78,8 @@ class LoopMachine(Machine):
             vals = mp.eval(list(operands[:mp.num_dims]), list(operands[mp.num_dims:]))
             v = min(vals)
             t = op.attributes.get("tag")
-            if t is not None and t.value.data in self.force_cap:
-                r0 = mp.results[0]
-                if not isinstance(r0, AffineConstantExpr):
-                    raise InterpError("forced cap on an affine.min without leading constant")
-                return [r0.value]
+            if t is not None and t.value.data in self.force_cap and isinstance(mp.results[0], AffineConstantExpr):
+                return [mp.results[0].value]
             return [v]
         if n == "affine.apply":
             mp = op.map.data
@@ -112,60 +109,77 @@ def _fmt(e):
     return repr(e)[:300]
 
 
-def compare(t0, t1, lenient_dims=False):
-    """First mismatch between the original trace t0 and the transformed trace t1, or None.
+def same_sequence(t0, t1):
+    return len(t0) == len(t1) and all(x[0] == y[0] and x[1] == y[1] and len(x[2]) == len(y[2]) for x, y in zip(t0, t1))
 
-    Index operands must be equal. A memref operand must be the same view (offsets, sizes) of a root buffer of the same
-    dimensions; with lenient_dims sizes may be larger in t1. Buffer identity: a function argument stays itself; the map
-    original allocation -> transformed allocation must be a function (a buffer used by two events stays one buffer), and two
-    original allocations may share one transformed allocation only if their use intervals in the original trace are disjoint.
+
+def compare_all(t0, t1, alt=None, alt_explains_index=False, limit=8):
+    """All mismatches (up to `limit`, [] = equivalent) between the original trace t0 and the transformed trace t1.
+
+    Same events in the same order. Index operands must be equal. A memref operand must be the same view (offsets, sizes) of a
+    root buffer of the same dimensions. Buffer identity: a function argument stays itself; the map original allocation ->
+    transformed allocation must be a function (a buffer used by two events stays one buffer), and two original allocations may
+    share one transformed allocation only if their use intervals in the original trace are disjoint.
+    `alt` is a second reference with the same event sequence as t0 (the original executed with affine.min ops forced to their
+    constant bound): a memref dimension may then equal the one in t0 or the one in alt. With alt_explains_index an index operand or
+    view offset that equals the alt value is reported under its own kind ('...-is-bound-value').
     """
+    out: list = []
     fmap: dict = {}
     first: dict = {}
     last: dict = {}
-    grew = [0]
+    if alt is not None and not same_sequence(t0, alt):
+        alt = None
 
-    def dims_ok(a, b):
+    def dims_ok(a, b, c):
         if a == b:
             return True
-        if lenient_dims and len(a) == len(b) and all(y >= x for x, y in zip(a, b)):
-            grew[0] += 1
-            return True
-        return False
+        return c is not None and len(a) == len(b) == len(c) and all(y == x or y == z for x, y, z in zip(a, b, c))
 
     for i, (x, y) in enumerate(zip(t0, t1)):
+        if len(out) >= limit:
+            return out
         if x[0] != y[0] or x[1] != y[1]:
-            return dict(kind="event-sequence-differs", index=i, original=_fmt(x[:2]), transformed=_fmt(y[:2]),
-                        original_len=len(t0), transformed_len=len(t1))
+            out.append(dict(kind="event-sequence-differs", index=i, original=_fmt(x[:2]), transformed=_fmt(y[:2]),
+                            original_len=len(t0), transformed_len=len(t1)))
+            return out
         if len(x[2]) != len(y[2]):
-            return dict(kind="operand-count-differs", index=i, original=_fmt(x), transformed=_fmt(y))
+            out.append(dict(kind="operand-count-differs", index=i, original=_fmt(x), transformed=_fmt(y)))
+            return out
         for j, (a, b) in enumerate(zip(x[2], y[2])):
+            c = alt[i][2][j] if alt is not None else None
             da, db = isinstance(a, Desc), isinstance(b, Desc)
+            ctx = dict(index=i, operand=j, original=_fmt(x), transformed=_fmt(y))
             if da != db:
-                return dict(kind="operand-kind-differs", index=i, operand=j, original=_fmt(x), transformed=_fmt(y))
+                out.append(dict(kind="operand-kind-differs", **ctx))
+                continue
             if not da:
                 if a != b:
-                    return dict(kind="index-operand-differs", index=i, operand=j, original=_fmt(x), transformed=_fmt(y))
+                    bound = alt_explains_index and c is not None and not isinstance(c, Desc) and b == c
+                    out.append(dict(kind="index-operand-is-bound-value" if bound else "index-operand-differs", **ctx))
                 continue
+            if not isinstance(c, Desc):
+                c = None
             if a.offs != b.offs:
-                return dict(kind="view-offset-differs", index=i, operand=j, original=_fmt(x), transformed=_fmt(y))
-            if not dims_ok(a.sizes, b.sizes):
-                return dict(kind="view-size-differs", index=i, operand=j, original=_fmt(x), transformed=_fmt(y))
-            if not dims_ok(a.rshape, b.rshape):
-                return dict(kind="buffer-size-differs", index=i, operand=j, original=_fmt(x), transformed=_fmt(y))
+                bound = alt_explains_index and c is not None and b.offs == c.offs
+                out.append(dict(kind="view-offset-is-bound-value" if bound else "view-offset-differs", **ctx))
+            if not dims_ok(a.sizes, b.sizes, c.sizes if c else None):
+                out.append(dict(kind="view-size-differs", **ctx))
+            if not dims_ok(a.rshape, b.rshape, c.rshape if c else None):
+                out.append(dict(kind="buffer-size-differs", **ctx))
             if a.root[0] == "arg" or b.root[0] == "arg":
                 if a.root != b.root:
-                    return dict(kind="buffer-identity-differs", index=i, operand=j, original=_fmt(x), transformed=_fmt(y))
+                    out.append(dict(kind="buffer-identity-differs", **ctx))
                 continue
             prev = fmap.setdefault(a.root, b.root)
             if prev != b.root:
-                return dict(kind="buffer-split-across-uses", index=i, operand=j, original=_fmt(x), transformed=_fmt(y),
-                            note="one original buffer is seen as two different buffers by its uses")
+                out.append(dict(kind="buffer-split-across-uses", note="one original buffer is seen as two different buffers by its uses", **ctx))
             first.setdefault(a.root, i)
             last[a.root] = i
     if len(t0) != len(t1):
         extra = (t0 if len(t0) > len(t1) else t1)[min(len(t0), len(t1))]
-        return dict(kind="event-count-differs", original_len=len(t0), transformed_len=len(t1), first_unmatched=_fmt(extra))
+        out.append(dict(kind="event-count-differs", original_len=len(t0), transformed_len=len(t1), first_unmatched=_fmt(extra)))
+        return out
     groups: dict = {}
     for r0, r1 in fmap.items():
         groups.setdefault(r1, []).append(r0)
@@ -175,6 +189,7 @@ def compare(t0, t1, lenient_dims=False):
         rs.sort(key=lambda r: first[r])
         for p, q in zip(rs, rs[1:]):
             if last[p] >= first[q]:
-                return dict(kind="buffer-shared-while-both-live", transformed_buffer=repr(r1), original_buffers=[repr(p), repr(q)],
-                            first_use_of_second=first[q], last_use_of_first=last[p])
-    return None
+                out.append(dict(kind="buffer-shared-while-both-live", transformed_buffer=repr(r1), original_buffers=[repr(p), repr(q)],
+                                first_use_of_second=first[q], last_use_of_first=last[p]))
+                break
+    return out[:limit]
